@@ -293,6 +293,28 @@ CHECKS['C17'] = {
     'level_note': 'Trusted: the 15-line bitwise reference. Not covered: polynomials outside the stated sets for widths > 8.',
 }
 
+
+def c18_jobs(tier):
+    src = ['src/utf.c', 'src/a.c']
+    jobs = grid_jobs('utf', 'harness/utf.cpp', src, tier, 16)
+    jobs += grid_jobs('utf-asan', 'harness/utf.cpp', src, 'quick', 8, san='asan')
+    return jobs
+
+
+CHECKS['C18'] = {
+    'title': 'UTF-8 codec round-trips every code point and never reads past the buffer', 'level': 'exploration', 'engine': 'grid', 'jobs': c18_jobs,
+    'rule': ('complete enumeration against an independent table-driven reference codec. Part A, per code point (thorough: ALL 2^31-1; quick: all below 0x110000, +-256 around every length boundary, every m*2^e and m*2^e-1): '
+             'encode length equals the UTF-8 table, bytes equal the reference, null buffer gives the same length, bit 31 is ignored, nothing is written outside the reported bytes; decoding the produced bytes returns the same length and code point; '
+             'decoding EVERY proper prefix (stated length 0..len-1) reports failure; with and without an output pointer. Part B, arbitrary bytes: EVERY string of length <=3 over all 256 byte values (2^24) and every string of length 4..5 (7 thorough) over 18 lead/continuation '
+             'class representatives, each with EVERY stated length 0..len, the buffer placed so that the byte at the stated length is the first byte of a PROT_NONE page: result <= stated length; a result > 1 requires a lead byte announcing that length and only continuation bytes after it and the payload value; 0xFE/0xFF never accepted; '
+             'a_utf_length equals stepping the decoder (count and consumed bytes); a_utf_length_ must not fault. distinct_nontrivial counts multi-byte code points and strings starting with a byte >= 0x80.'),
+    'assumptions': ['over-long forms, surrogates and a stray continuation byte taken as a one-byte unit are neither required to be rejected nor to be accepted (the statement does not say)',
+                    'a read beyond the stated length is observed as a fault on the guard page (and by ASan in the asan jobs)'],
+    'design_ref': '§4.C18', 'technique': 'complete enumeration of the code-point domain (2^31-1 in thorough) and of all byte strings up to length 3 (class representatives beyond) with guard-page placement',
+    'level_text': 'The round-trip clause is decided completely in the thorough tier (every code point, every prefix); the arbitrary-input clauses are decided for all byte strings of length <= 3 and for class-representative strings up to 7 bytes with every stated length, reads past the stated length being hardware-detected.',
+    'level_note': 'Trusted: the reference codec (30 lines), mprotect. Not covered: arbitrary byte strings longer than 3 beyond the 18-class abstraction.',
+}
+
 # ---------------------------------------------------------------- manifest texts
 CHECKS['C01'].update({
     'design_ref': '§4.C01', 'technique': 'explicit-state BFS to a fixpoint over the real src/avl.c (size-bounded, unbounded history length), lock-step reference set, API-replay conformance of every state',
